@@ -1,5 +1,5 @@
 """C17 — emu-mps quantum-jump trajectories: noise plumbing (structural clauses)."""
-from ..rules import observables, adapter, jump, noise, step, tdvp
+from ..rules import drivers, observables, adapter, jump, noise, step, tdvp
 
 META = {
     "title": "emu-mps quantum-jump trajectories reproduce Lindblad dynamics on average",
@@ -27,3 +27,6 @@ def check(ctx):
     adapter.noise_source(ctx)
     step.step_mps(ctx)
     observables.noise_term(ctx)
+    drivers.create_impl_table(ctx)
+    drivers.normalised_copies(ctx)
+    drivers.jump_gap(ctx)
